@@ -112,6 +112,9 @@ M = [
     ("C04", "ckpt-every-other", "black_it/calibrator.py", "                if self.saving_folder is not None:\n                    self.create_checkpoint(self.saving_folder)", "                if self.saving_folder is not None and self.current_batch_index % 2 == 0:\n                    self.create_checkpoint(self.saving_folder)"),
     ("C04", "verbose-not-restored", "black_it/calibrator.py", "            verbose=verbose,\n            saving_folder=saving_file,", "            verbose=True,\n            saving_folder=saving_file,"),
     ("C04", "series-float32", "black_it/utils/json_pandas_checkpointing.py", '            dtype="float64",', '            dtype="float32",'),
+    ("C06", "sqlite-delete-in-script", "black_it/utils/sqlite3_checkpointing.py", "        cursor.execute(SQL_DELETE)\n", "        cursor.executescript(SQL_DELETE)\n"),
+    ("C06", "sqlite-commit-early", "black_it/utils/sqlite3_checkpointing.py", "        cursor.execute(SQL_DELETE)\n", "        cursor.execute(SQL_DELETE)\n        connection.commit()\n"),
+    ("C06", "csv-written-first", "black_it/utils/json_pandas_checkpointing.py", "    # save calibration parameters in a json dictionary\n", "    pd.DataFrame.from_dict({\"losses_samp\": losses_samp.tolist(), \"batch_num_samp\": batch_num_samp.tolist(), \"method_samp\": method_samp.tolist(), **{f\"params_samp_{d}\": params_samp[:, d] for d in range(params_samp.shape[1])}}).to_csv(checkpoint_path / \"calibration_results.csv\")\n    # save calibration parameters in a json dictionary\n"),
     ("C15", "no-tolerance", "black_it/search_space.py", "parameters_bounds[1][i] + 0.0000001,", "parameters_bounds[1][i],"),
 ]
 
